@@ -585,16 +585,18 @@ def run_check(plugin, tier, seed):
             f"{len(corr.disagreements)} disagreements, {len(corr.failures)} oracle failures")
 
     # 6 decide ------------------------------------------------------------
-    if broken and not failures and hasattr(plugin, "search"):
+    findings = load_findings(plugin.ID)
+    known = {f["id"]: f for f in findings if f.get("status") == "known"}
+    classify = getattr(plugin, "classify", lambda ctx, f: None)
+    # the search runs when something broke and no failing input OTHER than reproductions of known findings is at hand
+    fresh_failures = [f for f in failures if classify(ctx, f) not in known]
+    if broken and not fresh_failures and hasattr(plugin, "search"):
         ctx.log("something broke (%s); searching for a failing input" % ", ".join(map(repr, broken[:4])))
         try:
             failures += plugin.search(ctx, broken, corr) or []
         except BuildError as e:
             ctx.log("search could not build:", e.name)
 
-    findings = load_findings(plugin.ID)
-    known = {f["id"]: f for f in findings if f.get("status") == "known"}
-    classify = getattr(plugin, "classify", lambda ctx, f: None)
     seen_known, unknown = {}, []
     for f in failures:
         fid = classify(ctx, f)
